@@ -1,0 +1,46 @@
+//go:build verif
+
+package webp
+
+import (
+	"path/filepath"
+	"runtime"
+)
+
+// Verification hooks for the option front end (property C20). Compiled only
+// with the build tag "verif"; they add no behaviour of their own.
+
+// VerifValidate is validateConfig.
+func VerifValidate(opts *EncoderOptions) error { return validateConfig(opts) }
+
+// VerifResolve calls the unexported resolve<Field> helper of that name.
+func VerifResolve(field string, v int) (int, bool) {
+	switch field {
+	case "SNSStrength":
+		return resolveSNSStrength(v), true
+	case "FilterStrength":
+		return resolveFilterStrength(v), true
+	case "FilterType":
+		return resolveFilterType(v), true
+	case "Segments":
+		return resolveSegments(v), true
+	case "Pass":
+		return resolvePass(v), true
+	case "QMax":
+		return resolveQMax(v), true
+	case "AlphaCompression":
+		return resolveAlphaCompression(v), true
+	case "AlphaFiltering":
+		return resolveAlphaFiltering(v), true
+	case "AlphaQuality":
+		return resolveAlphaQuality(v), true
+	}
+	return 0, false
+}
+
+// VerifEncodeSource is the path of encode.go in the tree this binary was
+// built from (the harness re-reads the EncoderOptions doc comments from it).
+func VerifEncodeSource() string {
+	_, f, _, _ := runtime.Caller(0)
+	return filepath.Join(filepath.Dir(f), "encode.go")
+}
